@@ -22,9 +22,11 @@ tvars == <<slots, net, reg, l>>
 D == Deviations
 
 \* print one mismatch; always TRUE
-Mis(ev, field, kind, props, exp, got) ==
+\* `sites` names where / why: known findings are matched on it
+MisS(ev, field, kind, props, sites, exp, got) ==
   PrintT("MISMATCH " \o ToJson([beh |-> ev.beh, l |-> l, op |-> ev.step.op, field |-> field,
-                                kind |-> kind, props |-> props, exp |-> exp, got |-> got]))
+                                kind |-> kind, props |-> props, sites |-> sites, exp |-> exp, got |-> got]))
+Mis(ev, field, kind, props, exp, got) == MisS(ev, field, kind, props, {}, exp, got)
 Chk(ok, ev, field, kind, props, exp, got) == IF ok THEN TRUE ELSE Mis(ev, field, kind, props, exp, got)
 
 \* recorded tree -> shape and text at every node
@@ -38,6 +40,8 @@ MSkelSeq(vs) == IF vs = <<>> THEN <<>> ELSE <<MSkel(vs[1])>> \o MSkelSeq(Tail(vs
 MSkel(v) == [text |-> Text(v), k |-> IF IsWrap(v) THEN "w" ELSE IF IsMulti(v) THEN "m" ELSE "l",
              kids |-> MSkelSeq(v.kids)]
 
+HeldAtU(v) == \E i \in 1..Len(AllNodes(v)) :
+                 LET n == AllNodes(v)[i] IN n.ty \in OpaqueTy /\ n.o.fam \in DecodableFam
 HasHidden(v) == \E i \in 1..Len(AllNodes(v)) : AllNodes(v)[i].hid # <<>>
 HasMulti(v) == \E i \in 1..Len(AllNodes(v)) : IsMulti(AllNodes(v)[i])
 
@@ -69,6 +73,39 @@ ReportBuild(ev, new) ==
         Chk(d = {}, ev, "acc", "verdict", PropsFor({"C19"}, v), [f \in d |-> Acc(v)[f]], [f \in d |-> o.acc[f]])
      /\ LET spec == IsSpecVec(v, new, reg) IN
         Chk(o.is = spec, ev, "is", "verdict", PropsFor({"C08"}, v), spec, o.is)
+     \* IsAny is the disjunction; Is(nil, r) is r == nil
+     /\ LET any == IF \E i \in 1..Len(o.is) : o.is[i] = "T" THEN "T" ELSE "F"
+            want == [any |-> any, none |-> "F", nilL |-> "F", nilR |-> "F", nilnil |-> "T", anyNil |-> "F"]
+        IN Chk(o.isx = want, ev, "isx", "verdict", {"C08"}, want, o.isx)
+
+\* where two recorded trees first diverge, bottom-up: families (at the origin)
+\* of the layers whose own text differs although their causes agree
+RECURSIVE DiffSites(_, _)
+RECURSIVE DiffSitesSeq(_, _)
+DiffSitesSeq(ps, qs) == IF ps = <<>> THEN {} ELSE DiffSites(ps[1], qs[1]) \cup DiffSitesSeq(Tail(ps), Tail(qs))
+DiffSites(p, q) ==
+  IF Len(p.kids) # Len(q.kids) \/ p.k # q.k THEN {"shape:" \o p.fam}
+  ELSE LET below == DiffSitesSeq(p.kids, q.kids) IN
+       IF below # {} THEN below ELSE IF p.text # q.text THEN {p.fam} ELSE {}
+
+RECURSIVE FamTree(_)
+RECURSIVE FamTreeSeq(_)
+FamTreeSeq(ts) == IF ts = <<>> THEN <<>> ELSE <<FamTree(ts[1])>> \o FamTreeSeq(Tail(ts))
+FamTree(t) == [fam |-> t.fam, ext |-> t.ext, kids |-> FamTreeSeq(t.kids)]
+
+\* positions of isrev whose local match depended on an identity-comparing Is
+\* method of a foreign type (the exception stated in C02)
+IdExempt(base, dst, e) ==
+  LET others == [j \in 1..(NSlots - 1) |-> IF j < dst THEN j ELSE j + 1]
+      refs == VisNodes(e)
+  IN [j \in 1..(NSlots - 1) |->
+        [k \in 1..Len(refs) |-> ~IsNil(base[others[j]]) /\ MatchViaIdentityIsMethod(base[others[j]], refs[k])]]
+
+RevOK(pre, post, ex) ==
+  /\ Len(pre) = Len(post)
+  /\ \A j \in 1..Len(pre) :
+        /\ Len(pre[j]) = Len(post[j])
+        /\ \A k \in 1..Len(pre[j]) : pre[j][k] = post[j][k] \/ (j <= Len(ex) /\ k <= Len(ex[j]) /\ ex[j][k])
 
 \* ---- hops: relational verdicts on the two recorded observations, conformance
 \* of the received value against the model
@@ -77,19 +114,81 @@ ReportHop(ev, base, new) ==
       v == new[st.dst]
       o == ev.obs
       p == ev.pre
-      knowing == "*" \in SeqToSet(st.known)
+      toK == "*" \in SeqToSet(st.known)
+      fromU == HeldAtU(base[st.src[1]])      \* the sender did not know all the types
+      knowing == toK /\ ~fromU                \* a hop between knowing processes
+      PT == IF knowing THEN "C01" ELSE "C04"
   IN
-  /\ Chk(o.panic = "", ev, "panic", "verdict", {"C01", "C05"}, "", o.panic)
+  /\ Chk(o.panic = "", ev, "panic", "verdict", {"C01", "C04", "C05"}, "", o.panic)
   /\ Chk(o.nil = IsNil(v), ev, "nil", "conf", {}, IsNil(v), o.nil)
-  /\ IF o.nil \/ IsNil(v) THEN TRUE
+  /\ IF o.nil \/ IsNil(v) \/ p.nil THEN TRUE
      ELSE
-     /\ Chk(RSkel(o.tree) = RSkel(p.tree), ev, "hop.skel", "verdict",
-            PropsFor(IF knowing THEN {"C01"} ELSE {"C04"}, v), RSkel(p.tree), RSkel(o.tree))
+     /\ LET sites == DiffSites(p.tree, o.tree) IN
+        IF sites = {} THEN TRUE
+        ELSE MisS(ev, "hop.skel", "verdict", PropsFor({PT}, v), sites, RSkel(p.tree), RSkel(o.tree))
      /\ Chk(o.tree = TreeOf(v, reg), ev, "tree", "conf", {}, TreeOf(v, reg), o.tree)
-     /\ LET d == RAccDiff(o.acc, p.acc) IN
-        Chk(d = {}, ev, "hop.acc", "verdict", IF knowing THEN {"C11"} ELSE {"C04"},
-            [f \in d |-> p.acc[f]], [f \in d |-> o.acc[f]])
-     /\ Chk(o.is = p.is, ev, "hop.is", "verdict", PropsFor({"C02"}, v), p.is, o.is)
+     \* type names are kept (the family / extension of every layer)
+     /\ Chk(FamTree(o.tree) = FamTree(p.tree), ev, "hop.fam", "verdict", {PT, "C02"}, FamTree(p.tree), FamTree(o.tree))
+     \* annotations: kept between knowing processes (an unknowing process cannot
+     \* see them; a knowing process after it sees them again: hop.via)
+     /\ LET d == IF knowing THEN RAccDiff(o.acc, p.acc) ELSE {} IN
+        Chk(d = {}, ev, "hop.acc", "verdict", {"C11"}, [f \in d |-> p.acc[f]], [f \in d |-> o.acc[f]])
+     \* Is is invariant.  Causes the model can name: "ismethod" = the match rested
+     \* on a layer's own Is method only and the model says the method is gone
+     \* (type not reconstituted); "markopaque" = an explicit Mark travelled to a
+     \* process that cannot decode it.  Anything else is "other".
+     /\ LET rp == RefPool(base)
+            e0 == base[st.src[1]]
+            markOpaque == \E i \in 1..Len(AllNodes(v)) :
+                             AllNodes(v)[i].ty = "opaqueWrapper" /\ AllNodes(v)[i].o.fam = "withMark"
+            Cause(j) == IF j = 0 \/ j > Len(rp) \/ o.is[j] # B2S(IsSpec(v, rp[j], reg)) THEN "other"
+                        ELSE IF OnlyViaMethod(e0, rp[j], reg) THEN "ismethod"
+                        ELSE IF markOpaque THEN "markopaque" ELSE "other"
+            bad == IF Len(o.is) # Len(p.is) THEN {0} ELSE {j \in 1..Len(o.is) : o.is[j] # p.is[j]}
+            \* the text of some layer changed in transfer: identity follows the text
+            txt == {"text:" \o x : x \in DiffSites(p.tree, o.tree)}
+        IN IF bad = {} THEN TRUE
+           ELSE MisS(ev, "hop.is", "verdict", {"C02"},
+                     IF txt # {} THEN txt ELSE {Cause(j) : j \in bad}, p.is, o.is)
+     /\ LET ex == IdExempt(base, st.dst, base[st.src[1]])
+            refs == VisNodes(v)
+            others == [j \in 1..(NSlots - 1) |-> IF j < st.dst THEN j ELSE j + 1]
+            markOpaque == \E i \in 1..Len(refs) : refs[i].ty = "opaqueWrapper" /\ refs[i].o.fam = "withMark"
+            okShape == /\ Len(p.isrev) = Len(o.isrev)
+                       /\ \A j \in 1..Len(p.isrev) : Len(p.isrev[j]) = Len(o.isrev[j])
+            bad == IF ~okShape THEN {<<0, 0>>}
+                   ELSE {jk \in UNION {{<<j, k>> : k \in 1..Len(p.isrev[j])} : j \in 1..Len(p.isrev)} :
+                           /\ p.isrev[jk[1]][jk[2]] # o.isrev[jk[1]][jk[2]]
+                           /\ ~(jk[1] <= Len(ex) /\ jk[2] <= Len(ex[jk[1]]) /\ ex[jk[1]][jk[2]])}
+            Cause(jk) == IF jk[1] = 0 \/ jk[2] > Len(refs) THEN "other"
+                         ELSE LET x == base[others[jk[1]]] IN
+                              IF o.isrev[jk[1]][jk[2]] # B2S(IsSpec(x, refs[jk[2]], reg)) THEN "other"
+                              ELSE IF markOpaque THEN "markopaque" ELSE "other"
+            txt == {"text:" \o x : x \in DiffSites(p.tree, o.tree)}
+        IN IF bad = {} THEN TRUE
+           ELSE MisS(ev, "hop.isrev", "verdict", {"C02"},
+                     IF txt # {} THEN txt ELSE {Cause(jk) : jk \in bad}, p.isrev, o.isrev)
+     \* no drift: from the first hop on, re-encoding reproduces the message received
+     \* (exactly between knowing processes from the second hop on; otherwise up to the
+     \* reportable payload of barrier layers, which embeds a rendering of the hidden
+     \* error as the encoding process sees it)
+     /\ Chk(IF o.hop.n >= 2 /\ knowing THEN o.hop.same ELSE o.hop.sameModBarrier, ev, "hop.drift", "verdict",
+            {PT}, TRUE, FALSE)
+     \* safe details per layer (C11 leaves out barrier / secondary layers; an
+     \* unknowing process must keep all of them as received)
+     /\ LET n == Len(p.safe)
+            keep == IF fromU THEN {}
+                    ELSE {i \in 1..n : p.safe[i].tn \notin {"barrierErr", "withSecondaryError"}}
+            \* between knowing processes: identical; at an unknowing process: nothing lost
+            \* (it also shows what the origin's encoder declared reportable)
+            bad == IF fromU THEN {} ELSE IF Len(o.safe) # n THEN {0}
+                   ELSE {i \in keep : IF toK THEN o.safe[i].d # p.safe[i].d
+                                       ELSE ~(SeqToSet(p.safe[i].d) \subseteq SeqToSet(o.safe[i].d))}
+        IN Chk(bad = {}, ev, "hop.safe", "verdict", IF knowing THEN {"C11"} ELSE {"C04"},
+               [i \in bad \ {0} |-> p.safe[i]], [i \in bad \ {0} |-> o.safe[i]])
+     \* via an unknowing process = directly
+     /\ LET bad == {f \in {"viaTree", "viaAcc", "viaIs", "viaVerbose", "viaSafe"} : ~o.hop[f]} IN
+        Chk(bad = {}, ev, "hop.via", "verdict", {"C04"}, {}, bad)
      /\ LET d == AccDiff(o.acc, Acc(v)) IN
         Chk(d = {}, ev, "acc", "conf", {}, [f \in d |-> Acc(v)[f]], [f \in d |-> o.acc[f]])
      /\ LET code == IsVec(v, base, reg, D) IN Chk(o.is = code, ev, "is", "conf", {}, code, o.is)
